@@ -20,7 +20,8 @@ RULE = ("cases = a set of <= 8 delayed <send>s (delays 0-120 ms written as 'Nms'
         "USCXML_VERIF point between releasing the queue lock and delivering the event while the interpreter thread executes "
         "the <cancel> for that very event, or at the entry of its callback before it takes the queue lock: no crash (use of the freed libevent event), no deadlock, at most one delivery. Second "
         "forced schedule: the timer thread is held inside a callback for 10-70 ms and a <send delay> is executed meanwhile - it must "
-        "still wait its full delay (libevent computes deadlines from a cached clock while callbacks run). "
+        "still wait its full delay (libevent computes deadlines from a cached clock while callbacks run). Third: the interpreter is "
+        "destroyed (queue-wide cancel) while the timer thread is in the middle of delivering an event. "
         "non-trivial = >= 3 timers with distinct due times and >= 1 cancel; distinct = hash of the timer/cancel set")
 ASSUMPTIONS = ["only lower bounds on time are asserted; a 30 s watchdog per run signals a deadlock (normal runs: < 0.5 s)",
                "timer granularity G = resolution of CLOCK_MONOTONIC_COARSE (one kernel tick, 4 ms here) + 1 ms: libevent's default "
@@ -215,6 +216,11 @@ def shard_main(ctx):
     ctx.run_hypothesis([timers_s, st.sampled_from(['large', 'fast']), st.sampled_from(["dq.timer.window", "dq.timer.entry"])],
                        lambda t, e, pt: check_forced(ctx, t, e, pt), p["forced"] // ctx.nshards + 1,
                        lambda t, e, pt: {"timers": t, "forced": True, "engine": e, "point": pt}, name="forced")
+    # teardown racing with a delivery in progress (the queue-wide cancel): shared with C10
+    import C10
+    ctx.run_hypothesis([st.lists(st.sampled_from([1, 2, 5, 10]), min_size=1, max_size=3), st.sampled_from(["dq.timer.window", "ii.eventReady"]),
+                        st.sampled_from(["large", "fast"])], lambda d, pt, e: C10.check_destroy_while_delivering(ctx, d, pt, e), p["busy"] // ctx.nshards + 1,
+                       lambda d, pt, e: {"destroy_delivering": [d, pt, e]}, name="teardown")
     ctx.run_hypothesis([st.sampled_from([30, 60, 100, 150]), st.sampled_from([10, 20, 40, 70]), st.sampled_from(['ms', 's', 'none']), st.sampled_from(['large', 'fast'])],
                        lambda d, h, sx, e: check_busy_timer_thread(ctx, d, h, sx, e), p["busy"] // ctx.nshards + 1,
                        lambda d, h, sx, e: {"busy": [d, h, sx, e]}, name="busy")
@@ -222,6 +228,10 @@ def shard_main(ctx):
 
 def replay(ctx, case):
     try:
+        if "destroy_delivering" in case:
+            import C10
+            C10.check_destroy_while_delivering(ctx, *case["destroy_delivering"])
+            return []
         if "busy" in case:
             check_busy_timer_thread(ctx, *case["busy"])
             return []
